@@ -748,9 +748,13 @@ Eval(ast, in, env) ==
     [] op = "err0" -> RErrV(in)
     [] op = "err" -> BindR(Eval(ast.e, in, env), [k |-> "err"])
     [] op = "reduce" ->
+         \* jq evaluates INIT before SOURCE; which error wins when both fail is not pinned by a
+         \* 1.7.1 recording (the implementation reports SOURCE's): skip
+         IF Eval(ast.i, in, env).end.k # "ok" /\ Eval(ast.s, in, env).end.k # "ok" THEN RSkip ELSE
          BindR(Eval(ast.i, in, env),
                [k |-> "reduceI", src |-> Eval(ast.s, in, env), ast |-> ast.u, x |-> ast.x, env |-> env])
     [] op = "foreach" ->
+         IF Eval(ast.i, in, env).end.k # "ok" /\ Eval(ast.s, in, env).end.k # "ok" THEN RSkip ELSE
          BindR(Eval(ast.i, in, env),
                [k |-> "foreachI", src |-> Eval(ast.s, in, env), upd |-> ast.u, x |-> ast.x, env |-> env,
                 has |-> ("e" \in DOMAIN ast), ext |-> IF "e" \in DOMAIN ast THEN ast.e ELSE [op |-> "id"]])
